@@ -314,9 +314,37 @@ fn request_framing_problem(out: &str) -> bool {
     }
 }
 
+/// `exec` under a wall-clock watchdog: the scripted run uses virtual time and takes milliseconds, so a run
+/// that is still going after 20 s of real time is a busy loop / a wedged pipe (`None`; the thread is lost and the
+/// caller has to end the process)
+pub fn exec_watched(c: &Case) -> Option<Result<String, String>> {
+    begin_case(&case_line(c));
+    let (tx, rx) = std::sync::mpsc::channel();
+    let c2 = c.clone();
+    std::thread::spawn(move || {
+        let _ = tx.send(exec(&c2));
+    });
+    rx.recv_timeout(std::time::Duration::from_secs(20)).ok()
+}
+
+/// record a wedged run and end the suite (a thread of this process is spinning in the implementation)
+fn wedged(ctx: &mut Ctx, q: &str) -> ! {
+    ctx.oracle_failure(
+        "spin_or_hang",
+        &format!("the forwarded stream made no progress for 20 s of real time (input re-offered forever / busy loop; the idle timeout cannot fire) on {}", q),
+    );
+    ctx.emit(q, "hang");
+    ctx.finish_ref();
+    std::process::exit(0);
+}
+
 fn emit_case(ctx: &mut Ctx, c: &Case) {
     let q = case_line(c);
-    match exec(c) {
+    let r = match exec_watched(c) {
+        Some(r) => r,
+        None => wedged(ctx, &q),
+    };
+    match r {
         Ok(out) => {
             if request_framing_problem(&out) {
                 ctx.oracle_failure(
@@ -760,9 +788,166 @@ pub fn run(ctx: &mut Ctx) {
         }
         c.origin = segment(&mut ctx.rng, &all, 3);
         ctx.stat("malformed_streams");
-        if let Err(m) = exec(&c) {
-            ctx.oracle_failure("panic", &format!("forwarded sink panicked ({}) on {}", m, case_line(&c)));
+        match exec_watched(&c) {
+            None => wedged(ctx, &case_line(&c)),
+            Some(Err(m)) => ctx.oracle_failure("panic", &format!("forwarded sink panicked ({}) on {}", m, case_line(&c))),
+            Some(Ok(_)) => {}
         }
     }
     live(ctx);
+}
+
+/// C09: the origin of a plain-HTTP forwarding is untrusted input too. Hostile origin byte streams
+/// (more bytes than announced, bodies on bodiless responses, broken / conflicting framing, endless
+/// interim responses, heads that never end) x segmentations x client acceptance patterns through the real
+/// forwarded source/sink and the real pipe: no panic, no busy loop (wall-clock watchdog), and the client is
+/// never sent more body bytes than the origin produced. The well-framed-but-overlong classes are also put to
+/// the model (`c17 run`).
+pub fn run_malicious(ctx: &mut Ctx) {
+    let n = if ctx.thorough() { 6000 } else { 900 };
+    set_stall_limit(90);
+    for k in 0..n {
+        let rng = &mut ctx.rng;
+        let version = *rng.pick(&[11u8, 2, 3]);
+        let class = if k < 40 { k % 10 } else { rng.below(10) };
+        let method = if class == 3 { "HEAD" } else { "GET" };
+        let extra: Vec<u8> = (0..*rng.pick(&[1usize, 2, 5, 17, 64])).map(|i| b'x' + (i % 3) as u8).collect();
+        let body: Vec<u8> = (0..*rng.pick(&[0usize, 1, 3, 10, 50])).map(|i| b'A' + (i % 26) as u8).collect();
+        let mut resp: Vec<u8> = vec![];
+        let mut modelled = false;
+        let name;
+        match class {
+            0 => {
+                name = "overlong_content_length_body";
+                resp.extend_from_slice(format!("HTTP/1.1 200 OK\r\nContent-Length: {}\r\n\r\n", body.len()).as_bytes());
+                resp.extend_from_slice(&body);
+                resp.extend_from_slice(&extra);
+                modelled = true;
+            }
+            1 => {
+                name = "body_on_204_or_304";
+                let st = *rng.pick(&[204u16, 304]);
+                resp.extend_from_slice(format!("HTTP/1.1 {} X\r\n", st).as_bytes());
+                if rng.chance(1, 2) {
+                    resp.extend_from_slice(format!("Content-Length: {}\r\n", extra.len()).as_bytes());
+                }
+                resp.extend_from_slice(b"\r\n");
+                resp.extend_from_slice(&extra);
+                modelled = true;
+            }
+            2 => {
+                name = "body_after_content_length_0";
+                resp.extend_from_slice(b"HTTP/1.1 200 OK\r\nContent-Length: 0\r\n\r\n");
+                resp.extend_from_slice(&extra);
+                modelled = true;
+            }
+            3 => {
+                name = "body_on_head_response";
+                resp.extend_from_slice(format!("HTTP/1.1 200 OK\r\nContent-Length: {}\r\n\r\n", extra.len()).as_bytes());
+                resp.extend_from_slice(&extra);
+                modelled = true;
+            }
+            4 => {
+                name = "bytes_after_last_chunk";
+                resp.extend_from_slice(b"HTTP/1.1 200 OK\r\nTransfer-Encoding: chunked\r\n\r\n");
+                resp.extend_from_slice(&chunked(&body, &[3, 4, 5], false, false));
+                resp.extend_from_slice(&extra);
+            }
+            5 => {
+                name = "broken_chunk_size";
+                resp.extend_from_slice(b"HTTP/1.1 200 OK\r\nTransfer-Encoding: chunked\r\n\r\n");
+                resp.extend_from_slice(*rng.pick(&[
+                    b"ffffffffffffffffffffff\r\nabc\r\n".as_slice(),
+                    b"-1\r\nabc\r\n0\r\n\r\n",
+                    b"zz\r\nabc\r\n",
+                    b"3abc\r\n0\r\n\r\n",
+                    b"3\r\nabcdef\r\n0\r\n\r\n",
+                    b"\r\n\r\n\r\n",
+                    b"7fffffffffffffff\r\nabc",
+                    b"0000000000000000000000000000000000000000000000000000000000000003\r\nabc\r\n0\r\n\r\n",
+                ]));
+            }
+            6 => {
+                name = "conflicting_framing";
+                resp.extend_from_slice(b"HTTP/1.1 200 OK\r\n");
+                resp.extend_from_slice(*rng.pick(&[
+                    b"Content-Length: 3\r\nContent-Length: 5\r\n".as_slice(),
+                    b"Content-Length: 3\r\nTransfer-Encoding: chunked\r\n",
+                    b"Content-Length: -3\r\n",
+                    b"Content-Length: 99999999999999999999999\r\n",
+                    b"Content-Length: 3, 3\r\n",
+                    b"Content-Length: 0x3\r\n",
+                    b"Transfer-Encoding: gzip\r\n",
+                    b"Content-Length:\r\n",
+                ]));
+                resp.extend_from_slice(b"\r\n");
+                resp.extend_from_slice(&body);
+                resp.extend_from_slice(&extra);
+            }
+            7 => {
+                name = "endless_interim_responses";
+                for _ in 0..rng.range(20, 200) {
+                    resp.extend_from_slice(b"HTTP/1.1 100 Continue\r\n\r\n");
+                }
+                if rng.chance(1, 2) {
+                    resp.extend_from_slice(b"HTTP/1.1 200 OK\r\nContent-Length: 0\r\n\r\n");
+                }
+            }
+            8 => {
+                name = "head_that_never_ends";
+                resp.extend_from_slice(b"HTTP/1.1 200 OK\r\n");
+                for i in 0..rng.range(200, 3000) {
+                    resp.extend_from_slice(format!("X-{}: {}\r\n", i, "v".repeat(rng.below(60) as usize)).as_bytes());
+                }
+            }
+            _ => {
+                name = "not_http";
+                let len = rng.range(1, 400) as usize;
+                resp = rng.bytes(len);
+                if rng.chance(1, 2) {
+                    let mut r = b"HTTP/1.1 200 OK\r\n".to_vec();
+                    r.extend_from_slice(&resp);
+                    resp = r;
+                }
+            }
+        }
+        let style = if resp.len() > 4000 { 3 } else { rng.below(4) };
+        let origin = segment(rng, &resp, style);
+        let quotas: Vec<usize> = match rng.below(4) {
+            0 => vec![],
+            1 => (0..rng.range(1, 30)).map(|_| rng.range(0, 3) as usize).collect(),
+            2 => (0..rng.range(1, 10)).map(|_| rng.range(1, 9) as usize).collect(),
+            _ => (0..rng.range(1, 6)).map(|_| *rng.pick(&[0usize, 1, 1000])).collect(),
+        };
+        let c = Case {
+            version,
+            method: method.into(),
+            uri: "http://origin.test/x".into(),
+            headers: if version == 11 { vec![("host".into(), b"origin.test".to_vec())] } else { vec![] },
+            body: vec![],
+            origin,
+            origin_closes: rng.chance(1, 2),
+            quotas,
+            origin_quotas: vec![],
+        };
+        ctx.stat(&format!("origin_{}", name));
+        let q = case_line(&c);
+        match exec_watched(&c) {
+            None => wedged(ctx, &q),
+            Some(Err(m)) => {
+                ctx.oracle_failure("panic", &format!("forwarded stream panicked ({}) on a hostile origin stream: {}", m, q));
+                ctx.emit(&q, "panic");
+            }
+            Some(Ok(out)) => {
+                // no amplification: the body delivered to the client is made of origin bytes
+                let delivered = out.split(' ').find_map(|t| t.strip_prefix("body=")).map(|h| h.len() / 2).unwrap_or(0);
+                if delivered > resp.len() {
+                    ctx.oracle_failure("amplification", &format!("{} body bytes delivered from a {}-byte origin stream: {}", delivered, resp.len(), q));
+                }
+                if modelled || (std::env::var("C09ORIGIN_ALL").is_ok() && class != 7 && class != 8) {
+                    ctx.emit(&q, &out);
+                }
+            }
+        }
+    }
 }
